@@ -313,3 +313,166 @@ Proof.
   - rewrite level_node by discriminate. rewrite Hc. apply cfg_key_preserved.
   - rewrite level_node by discriminate. rewrite Hc. apply cfg_key_preserved.
 Qed.
+
+(* ------------------------------------------------------------------ names *)
+Lemma names_preserved r out :
+  migrate r = MOk out ->
+  ykeys (ysub [SK kpackages] out) = map fst (r_pkgs r) /\
+  NoDup (map fst (r_pkgs r)) /\
+  forall p pc, assoc p (r_pkgs r) = Some pc ->
+    ykeys (ysub [SK kpackages; SK p; SK kinterfaces] out) = map fst (p_ifaces pc) /\
+    NoDup (map fst (p_ifaces pc)) /\
+    forall i ic, assoc i (p_ifaces pc) = Some ic ->
+      ylen (ysub [SK kpackages; SK p; SK kinterfaces; SK i; SK kconfigs] out) = length (i_configs ic).
+Proof.
+  intros Hm. apply migrate_ok in Hm as [-> Hwf].
+  unfold wf_root in Hwf. apply andb_true_iff in Hwf as [Hnd Hall].
+  split; [|split].
+  - rewrite root_packages. unfold pkgs_node, ykeys. apply map_fst_map.
+  - apply nodupb_NoDup; exact Hnd.
+  - intros p pc Hp.
+    assert (Hpn : ysub [SK kpackages; SK p; SK kinterfaces] (mig_root r) = ifaces_node pc).
+    { change [SK kpackages; SK p; SK kinterfaces] with ([SK kpackages; SK p] ++ [SK kinterfaces]).
+      rewrite ysub_app, pkg_get, Hp. cbn [option_map bind]. apply pkg_ifaces_get. }
+    split; [|split].
+    + rewrite Hpn. unfold ifaces_node, ykeys.
+      destruct (p_ifaces pc) as [|e l]; [reflexivity | apply map_fst_map].
+    + apply nodupb_NoDup. rewrite forallb_forall in Hall.
+      apply (Hall (p, pc)). apply assoc_in; exact Hp.
+    + intros i ic Hi.
+      change [SK kpackages; SK p; SK kinterfaces; SK i; SK kconfigs]
+        with ([SK kpackages; SK p; SK kinterfaces] ++ [SK i] ++ [SK kconfigs]).
+      rewrite ysub_app, Hpn.
+      transitivity (ylen (bind (bind (ifaces_node pc) (ysub [SK i])) (ysub [SK kconfigs]))).
+      { destruct (ifaces_node pc) as [v|]; [|reflexivity]. cbn [bind]. rewrite ysub_app. reflexivity. }
+      rewrite iface_get, Hi. cbn [option_map bind]. rewrite iface_configs_get.
+      unfold configs_node, ylen. destruct (i_configs ic) as [|e l]; [reflexivity | apply map_length].
+Qed.
+
+(* ------------------------------------------------------------------ the loader accepts *)
+Lemma forallb_collapse (f : str * yv -> bool) l :
+  (forall k v, In (k, Some v) l -> f (k, v) = true) -> forallb f (collapse l) = true.
+Proof.
+  intros H. apply forallb_forall. intros [k v] Hin. apply H. apply in_collapse; exact Hin.
+Qed.
+Lemma existsb_false {A} (f : A -> bool) l : (forall x, In x l -> f x = false) -> existsb f l = false.
+Proof.
+  intros H. destruct (existsb f l) eqn:E; [|reflexivity].
+  apply existsb_exists in E as [x [Hin Hx]]. rewrite (H x Hin) in Hx. discriminate.
+Qed.
+Lemma existsb_collapse_false (f : str * yv -> bool) l :
+  (forall k v, In (k, Some v) l -> f (k, v) = false) -> existsb f (collapse l) = false.
+Proof.
+  intros H. apply existsb_false. intros [k v] Hin. apply H. apply in_collapse; exact Hin.
+Qed.
+
+Lemma forallb_map_true {A C} (g : A -> C) (f : C -> bool) l :
+  (forall a, f (g a) = true) -> forallb f (map g l) = true.
+Proof. intros H. induction l; simpl; [reflexivity | rewrite H, IHl; reflexivity]. Qed.
+Lemma existsb_map_false {A C} (g : A -> C) (f : C -> bool) l :
+  (forall a, f (g a) = false) -> existsb f (map g l) = false.
+Proof. intros H. induction l; simpl; [reflexivity | rewrite H, IHl; reflexivity]. Qed.
+
+Lemma forallb_is_str l : forallb is_str (map YStr l) = true.
+Proof. induction l; simpl; auto. Qed.
+
+Definition entry_ok (e : str * yv) : bool :=
+  match assoc (fst e) config_keys with Some t => has_ty t (snd e) | None => false end.
+
+Ltac assoc_compute :=
+  match goal with |- context [assoc ?k config_keys] =>
+    let r := eval vm_compute in (assoc k config_keys) in change (assoc k config_keys) with r end.
+
+Lemma cfg_entry_ok c tpl k v : In (k, Some v) (cfg_entries c tpl) -> entry_ok (k, v) = true.
+Proof.
+  unfold cfg_entries, entry_ok. cbn [In fst snd]. intros H.
+  repeat (destruct H as [H|H]; [injection H as <- Hv | ]); try contradiction; try discriminate;
+    assoc_compute.
+  - destruct (v_all c); [injection Hv as <-; reflexivity | discriminate].
+  - destruct (v_anchors c) as [[|e m]|]; try discriminate. injection Hv as <-; reflexivity.
+  - destruct (v_config c); [injection Hv as <-; reflexivity | discriminate].
+  - destruct (v_dir c); [injection Hv as <-; reflexivity | discriminate].
+  - destruct (v_exclude c) as [[|e m]|]; try discriminate. injection Hv as <-.
+    cbn [has_ty]. apply (forallb_is_str (e :: m)).
+  - destruct (v_exclude_regex c); [injection Hv as <-; reflexivity | discriminate].
+  - destruct (v_include_regex c); [injection Hv as <-; reflexivity | discriminate].
+  - destruct (v_log_level c); [injection Hv as <-; reflexivity | discriminate].
+  - destruct (v_mockname c); [injection Hv as <-; reflexivity | discriminate].
+  - destruct (v_outpkg c); [injection Hv as <-; reflexivity | discriminate].
+  - destruct (v_recursive c); [injection Hv as <-; reflexivity | discriminate].
+  - destruct tpl; [injection Hv as <-; reflexivity | discriminate].
+  - unfold template_data in Hv. destruct (collapse (td_entries c)); [discriminate|].
+    injection Hv as <-; reflexivity.
+Qed.
+
+Lemma check_cfg_mig c tpl : check_cfg (mig_config c tpl) = true.
+Proof. unfold check_cfg, mig_config. apply forallb_collapse. intros k v H. apply (cfg_entry_ok c tpl k v H). Qed.
+
+Lemma check_iface_mig ic : check_iface (mig_iface ic) = true.
+Proof.
+  unfold mig_iface, check_iface. apply forallb_collapse. cbn [In fst snd]. intros k v H.
+  repeat (destruct H as [H|H]; [injection H as <- Hv | ]); try contradiction; seqb_compute.
+  - destruct (i_config ic); [injection Hv as <- | discriminate]. apply check_cfg_mig.
+  - destruct (i_configs ic) as [|e l]; [discriminate|]. injection Hv as <-.
+    apply (forallb_map_true mig_cfg_node check_cfg_node (e :: l)). intros c. apply check_cfg_mig.
+Qed.
+
+Lemma check_pkg_mig pc : check_pkg (mig_pkg pc) = true.
+Proof.
+  unfold mig_pkg, check_pkg. apply forallb_collapse. cbn [In fst snd]. intros k v H.
+  repeat (destruct H as [H|H]; [injection H as <- Hv | ]); try contradiction; seqb_compute.
+  - destruct (p_config pc); [injection Hv as <- | discriminate]. apply check_cfg_mig.
+  - destruct (p_ifaces pc) as [|e l]; [discriminate|]. injection Hv as <-.
+    cbn [map_of]. apply (forallb_map_true (fun x => (fst x, mig_iface (snd x))) _ (e :: l)).
+    intros a. apply check_iface_mig.
+Qed.
+
+Lemma check_root_mig r : check_root (mig_root r) = true.
+Proof.
+  unfold mig_root, check_root. rewrite forallb_app. apply andb_true_iff. split.
+  - apply forallb_forall. intros [k v] Hin.
+    assert (Hk : seqb k kpackages = false).
+    { apply seqb_neq. intros ->. apply (packages_not_cfg_key (r_top r) (Some testify)).
+      apply in_map_iff. exists (kpackages, v). split; [reflexivity | exact Hin]. }
+    cbn [fst snd]. rewrite Hk. unfold check_cfg. cbn [forallb]. rewrite andb_true_r.
+    apply in_collapse in Hin. apply (cfg_entry_ok _ _ _ _ Hin).
+  - cbn [forallb fst snd]. rewrite seqb_refl, andb_true_r. cbn [map_of].
+    apply forallb_map_true. intros a. apply check_pkg_mig.
+Qed.
+
+Lemma iface_null_sub_mig ic : iface_null_sub (mig_iface ic) = false.
+Proof.
+  unfold mig_iface, iface_null_sub. apply existsb_collapse_false. cbn [In fst snd]. intros k v H.
+  repeat (destruct H as [H|H]; [injection H as <- Hv | ]); try contradiction; seqb_compute;
+    [reflexivity|].
+  destruct (i_configs ic) as [|e l]; [discriminate|]. injection Hv as <-. cbn [andb].
+  apply (existsb_map_false mig_cfg_node is_null (e :: l)). intros c. reflexivity.
+Qed.
+
+Lemma pkg_null_sub_mig pc : pkg_null_sub (mig_pkg pc) = false.
+Proof.
+  unfold mig_pkg, pkg_null_sub, under. apply existsb_collapse_false. cbn [In fst snd]. intros k v H.
+  repeat (destruct H as [H|H]; [injection H as <- Hv | ]); try contradiction; seqb_compute;
+    [reflexivity|].
+  destruct (p_ifaces pc) as [|e l]; [discriminate|]. injection Hv as <-. cbn [andb].
+  apply (existsb_map_false (fun x => (fst x, mig_iface (snd x))) _ (e :: l)). intros a. apply iface_null_sub_mig.
+Qed.
+
+Lemma root_null_sub_mig r : root_null_sub (mig_root r) = false.
+Proof.
+  unfold mig_root, root_null_sub, under. apply existsb_false. intros [k v] Hin.
+  apply in_app_or in Hin as [Hin|Hin].
+  - assert (Hk : seqb k kpackages = false).
+    { apply seqb_neq. intros ->. apply (packages_not_cfg_key (r_top r) (Some testify)).
+      apply in_map_iff. exists (kpackages, v). split; [reflexivity | exact Hin]. }
+    cbn [fst]. rewrite Hk. reflexivity.
+  - destruct Hin as [Hin|[]]. injection Hin as <- <-. cbn [fst snd]. rewrite seqb_refl. cbn [andb].
+    apply existsb_map_false. intros a. apply pkg_null_sub_mig.
+Qed.
+
+Lemma loader_accepts r out : migrate r = MOk out -> load out = LoadOk.
+Proof.
+  intros Hm. apply migrate_ok in Hm as [-> _].
+  unfold load, load_with. unfold mig_root at 1. cbn [andb].
+  rewrite check_root_mig, root_null_sub_mig. reflexivity.
+Qed.
